@@ -1102,7 +1102,8 @@ def run_linalg(case, R):
         try:
             R.op('svd')
             iq = rng.choice([1, -1])
-            full = rng.random() < 0.3       # exactness / unitarity of the full form: property C05 (F05.1); here: the factors are consistent tensors
+            full = rng.random() < 0.3       # (directed corpus cases fix it with 'svd_full'); exactness / unitarity of the full form: property C05 (F05.1); here: the factors are consistent tensors
+            full = bool(case.get('svd_full', full))
             lr = rng.choice(['none', 'L', 'R'])
             qL = pick_qtotal(rng, [rL], mods)
             qlr = {'none': [None, None], 'L': [qL, None], 'R': [None, qL]}[lr]
@@ -1204,7 +1205,7 @@ def run_linalg(case, R):
                 qt_is(P_, G.mv(mods, -np.asarray(U_.qtotal)), 'polar', 'left=%s' % left, 'u.qtotal + p.qtotal = a.qtotal')
     except Abort:
         pass
-    # NOT generated here: speigs, svd(full_matrices=True), orthogonal_columns (property C05; registered defects F05.1, F05.2, F05.6)
+    # NOT generated here: speigs, orthogonal_columns (property C05; registered defect F05.6)
     # ---------------- 4. krylov_based.gram_schmidt (in place), sparse.*NpcLinearOperator
     try:
         R.op('gram_schmidt')
